@@ -481,13 +481,25 @@ impl DhtHandler {
         self.bootstrap.start();
     }
 //@end
-    // ASSUMED (handler.rs:467-482, 569-575: read-only API answers over oneshot channels; they take &self and have no access to the effect trace)
-    #[verifier::external_body]
-    fn handle_get_local_addr(&self, tx: oneshot::Sender<SocketAddr>) { unimplemented!() }
+    // read-only API answers over oneshot channels: they take &self and have no access to the effect trace, so by their signature they send no datagram and change no handler
+    // state; what is proved on the real text is that they cannot panic (C14: the lock's `unwrap`, a closed channel is swallowed)
+//@begin fn src/handler.rs impl:DhtHandler handle_get_local_addr nopub=1 props=C14
+    fn handle_get_local_addr(&self, tx: oneshot::Sender<SocketAddr>) {
+        tx.send(self.socket.local_addr()).unwrap_or(())
+    }
+//@end
+    // ASSUMED (handler.rs:467-477: `table.buckets().count()` -- Iterator::count has no specification)
     #[verifier::external_body]
     fn handle_get_state(&self, tx: oneshot::Sender<State>) { unimplemented!() }
-    #[verifier::external_body]
-    fn handle_load_contacts(&self, tx: oneshot::Sender<(HashSet<SocketAddr>, HashSet<SocketAddr>)>) { unimplemented!() }
+//@begin fn src/handler.rs impl:DhtHandler handle_load_contacts nopub=1 props=C14
+    fn handle_load_contacts(
+        &self,
+        tx: oneshot::Sender<(HashSet<SocketAddr>, HashSet<SocketAddr>)>,
+    ) {
+        tx.send(self.routing_table.lock().unwrap().load_contacts())
+            .unwrap_or(());
+    }
+//@end
 
 //@begin fn src/handler.rs impl:DhtHandler ip_version nopub=1
     fn ip_version(&self) -> (r: IpVersion)
